@@ -56,6 +56,10 @@ CHECKS = {
  "C15": dict(category="model_checking", engine="tables-loader-driver", technique="round trip of serialized tables against the reference token stream for every table representation; independent parse of the file against the documented layout; exhaustive enumeration of load attempts: every truncation length, every damaged magic byte, every single-byte mutation (2 masks) judged by region; all 6 concatenation orders of three prefixed table sets",
    text="For 3-4 rule sets x the 8 table representations x non-reentrant/reentrant (plus REJECT, yylineno and variable trailing context so that every table kind, including ACCLIST, NUL_TRANS, START_STATE_LIST and RULE_CAN_MATCH_EOL, is serialized): vflib/tblfile.py parses the file strictly by the manual's layout (magic, th_hsize/th_ssize, NUL-terminated version and name, flag/width consistency, network byte order, 8-byte padding of header and every table); the scanner with loaded tables must reproduce the reference tokens; yytables_fload must fail (error return or fatal hook, ASan-clean, nothing left allocated) for every proper prefix of the file and every damaged magic byte; a --tables-verify scanner must verify its own file, must still succeed when a byte of padding, version text or th_flags changes and must fail when a table element, table id or the magic number changes (one forked child per mutation); three differently-prefixed sets concatenated in all 6 orders are each found by name and scanned correctly, and everything is released after yytables_destroy + yylex_destroy.",
    note="Arbitrary corruption of a plain tables file is not required to be detected (only truncation / magic); th_hsize, th_ssize and the set name are navigation data and not judged under mutation; one known finding (verify ignores table dimensions).", design="2/C15"),
+
+ "C17": dict(category="model_checking", engine="reference-dfa", technique="exhaustive enumeration of rule sets (ordered pairs and triples from a pool of 28 mutually shadowing patterns, '|'-action variants) with the set of unmatchable rules decided by reachability of priority accepts in the reference DFA, compared with flex's warnings mapped back through line numbers; default-rule warning decided by reachability of an uncovered input",
+   text="~1 600 rule sets (quick; all triples from 16 patterns in the thorough tier), 20 per specification under exclusive start conditions: flex must warn 'rule cannot be matched' for exactly the rules that are the first accepting rule of no state reachable by a non-empty string from any (condition, beginning-of-line) start state of the reference DFA, each warning on the line of its rule (also next to '|' actions); -w must silence the warnings and leave the scanner byte-identical; with -s/nodefault, one rule set per specification, the default-rule warning must appear iff some string with no accepted prefix reaches a dead end or the end of input; for rule sets with variable trailing context only 'no false warning' is required.",
+   note="Reference DFA from vflib/refsem.py; REJECT rule sets are not in the exact comparison.", design="2/C17"),
 }
 
 NOT_YET = "check under construction in this round; will be claimed once it has run end-to-end on the unchanged tree"
@@ -71,6 +75,8 @@ def main():
      "engines": [
        {"name": "buffer-history-driver", "path": "csrc/vf_bufdriver.h", "serves_properties": ["C10", "C11", "C13", "C14"],
         "kind_free_text": "generated scanner #included into a driver that sits between yylex() calls and explores API-call histories depth-first with a deviation bound; per-buffer reference scanners, buffer stack and start-condition model"},
+       {"name": "reference-dfa", "path": "vflib/refsem.py", "serves_properties": ["C17"],
+        "kind_free_text": "explicit-state reachability on the reference DFA built from pattern ASTs (Thompson + subset construction), compared with flex's diagnostics"},
        {"name": "tables-loader-driver", "path": "csrc/vf_tbldriver.h", "serves_properties": ["C15"],
         "kind_free_text": "scanner built with %option tables-file #included into a driver that enumerates load attempts (prefixes, mutations) from memory images, with the allocation ledger; file layout judged by the independent parser vflib/tblfile.py"},
        {"name": "lockstep-harness", "path": "csrc/vf_driver.h", "serves_properties": sorted(k for k in CHECKS if CHECKS[k].get("engine", "lockstep-harness") == "lockstep-harness"),
